@@ -18,18 +18,16 @@ META = {
 
 def obligations(tier, seed):
     t = 400 if tier == 'quick' else 2400
-    variants = [(1, 0), (0, 1), (2, 0), (3, 1)] if tier == 'quick' else [(c, d) for c in range(4) for d in range(4)]
     return [
         dict(name='C07b.fold_int', fn='fold_int', timeout=t, shards=[['op == %d' % o, 'a_bool == %s' % ab] for o in range(fk.N_OPS) for ab in (True, False)],
              bounds='all 0 <= a,b < 10^6, 13 operators, int/bool operands'),
         dict(name='C07b.fold_int.twin', fn='fold_int_twin', timeout=t, shards=[[]], expect='refuted', bounds='reachability twin: something is folded'),
-        dict(name='C07.fold_pairs', fn='fold_pairs', timeout=t,
-             shards=[['op == %d' % o] + ['(vc, vd) in %r' % (variants,)] + ([] if tier == 'thorough' else ['ia < 12 and ib < 12']) for o in range(fk.N_OPS)],
-             bounds='%d^2 operand pairs x %d type-variant pairs x 13 operators' % (fk.N_VALS, len(variants))),
-        dict(name='C07c.fold_nested', fn='fold_nested', timeout=t,
-             shards=[['op2 == %d' % o, 'right_nested == %s' % r] + ([] if tier == 'thorough' else ['ctx in (0, 1, 3, 4)', 'op1 in (0, 1, 2, 3)', 'ia in (1, 3, 9) and ib in (2, 7, 12) and ic in (1, 3, 13)'])
-                     for o in range(fk.N_OPS) for r in (True, False)],
-             bounds='quick: 4 contexts, 4 inner operators, 3x3x3 operands; thorough: %d contexts, all %d^3 operand triples' % (fk.N_CTX, fk.N_VALS)),
-        dict(name='C07.number_print', fn='number_print', timeout=t, shards=[['neg == %s' % n] for n in (True, False)],
+        dict(name='C07.fold_pairs', fn='fold_pairs_b', timeout=t, shards=[['op == %d' % o] for o in range(fk.N_OPS)],
+             bounds='%d^2 operand pairs x 16 type-variant pairs x 13 operators' % fk.N_VALS),
+        dict(name='C07c.fold_nested', fn='fold_nested_b', timeout=t,
+             shards=[['op2 == %d' % o, 'right_nested == %s' % r, 'ctx == %d' % c] for o in range(fk.N_OPS) for r in (True, False)
+                     for c in ((0, 1, 3, 4)[(o + seed) % 4:][:1] if tier == 'quick' else range(fk.N_CTX))],
+             bounds='13 inner x 13 outer operators x 8^3 operand triples x contexts (quick: one context per shard, rotating with the seed; thorough: all %d)' % fk.N_CTX),
+        dict(name='C07.number_print', fn='number_print_b', timeout=t, shards=[['neg == %s' % n] for n in (True, False)],
              bounds='%d constants x sign x %d contexts' % (fk.N_NUMS, fk.N_CTX)),
     ]
